@@ -1,6 +1,6 @@
 (* Non-vacuity: concrete, non-trivial values meeting the hypotheses of every theorem. *)
 From Coq Require Import String.
-From V Require Import Common.Base C15.Names C15.Renamer C15.Spec C15.NamesProofs C15.MinifyProofs C15.ResolveProofs C15.Harness.
+From V Require Import Common.Base C15.Names C15.Renamer C15.Spec C15.NamesProofs C15.MinifyProofs C15.ResolveProofs C15.ScopeBuild C15.Harness.
 
 Example minname_ex : map (NumberToMinifiedName default_minifier) [0; 1; 53; 54; 55; 54 + 54 * 64; 1000000]
   = [[97]; [98]; [36]; [97;97]; [98;97]; [97;97;97]; [67;118;71;100]].
@@ -93,4 +93,18 @@ Example resolve_ex :
        resolve v (number_name_for ex_syms names) (nm "x4"))
   | None => (None, None)
   end = (Some 2%nat, Some 2%nat).
+Proof. vm_compute. reflexivity. Qed.
+
+(* a module with x (0), y (1), free g (2 pinned); a function-args scope creating p and arguments,
+   its body sharing p/arguments and creating v; a block in the body sharing v and creating a let *)
+Definition sk_ex : sk :=
+  Sk [(nm "x", NsDefault); (nm "y", NsDefault); (nm "g", NsPinned)] []
+     [Sk [(nm "p", NsDefault); (nm "arguments", NsPinned)] []
+         [Sk [(nm "v", NsDefault)] [nm "p"; nm "arguments"]
+             [Sk [(nm "l", NsDefault)] [nm "v"] []]]].
+Example build_sk_ex :
+  fst (build_sk sk_ex) =
+  Scope [0; 1; 2]%nat [] None false
+    [Scope [3; 4]%nat [] None false
+       [Scope [5; 3; 4]%nat [] None false [Scope [6; 5]%nat [] None false []]]].
 Proof. vm_compute. reflexivity. Qed.
